@@ -736,6 +736,26 @@ fn dump(tcx: TyCtxt<'_>, out_dir: &str, kind_tag: &str) {
             nfn += 1;
         } else {
             // const / static item
+            if matches!(kind, DefKind::Const { .. } | DefKind::AssocConst { .. }) {
+                // the initializer's MIR, so that rules can read table-building const blocks
+                let cb = tcx.mir_for_ctfe(did);
+                if cb.basic_blocks.len() > 1 {
+                    let parent = tcx.parent(did.to_def_id());
+                    let cit: Vec<(&str, String)> = vec![
+                        ("k", jstr("fn")),
+                        ("q", jstr(&q)),
+                        ("kind", jstr("ConstBody")),
+                        ("file", jstr(&file)),
+                        ("line", format!("{}", line)),
+                        ("exp", jbool(exp)),
+                        ("parent", jstr(&cx.qname(parent))),
+                        ("generics", jlist(&[])),
+                        ("mir", cx.body(did, cb)),
+                    ];
+                    out.push_str(&jobj(&cit));
+                    out.push('\n');
+                }
+            }
             let ty = tcx.type_of(did).skip_binder();
             let mut it: Vec<(&str, String)> = vec![
                 ("k", jstr("const")),
